@@ -164,3 +164,37 @@ func cutsetValidRule(r *Report, p *Prog, rule string, pkgs ...string) int {
 	}
 	return n
 }
+
+// depOrderTotalRule (C05.h DEP-ORDER-TOTAL): the resolvers process the
+// requirements of a version in the order SortDependencies gives them, and the
+// npm resolver's answer depends on that order when two requirements compete
+// for one installed name (a package and an alias of that name). The comparator
+// therefore has to be total on requirements: besides the name it reads the
+// type and the requirement string of both operands; otherwise the order of
+// such a pair, and with it the graph, depends on the order in which the
+// caller listed them (and on sort.Slice, which is not stable).
+func depOrderTotalRule(r *Report, p *Prog, rule string) {
+	f := p.lookupFn("resolve.sortNPMDependencies")
+	key := "resolve.sortNPMDependencies: the comparator distinguishes any two different requirements"
+	if f == nil || len(f.AnonFuncs) == 0 {
+		r.bad(rule, key, "", "sortNPMDependencies or its comparator not found: anchor lost")
+		return
+	}
+	cmp := f.AnonFuncs[0]
+	reads := fieldReads(p, cmp, modPrefix+"resolve", false, nil)
+	have := map[string]bool{}
+	for fv := range reads {
+		have[fv.Name()] = true
+	}
+	var missing []string
+	for _, want := range []string{"Name", "Type", "Version"} {
+		if !have[want] {
+			missing = append(missing, want)
+		}
+	}
+	if len(missing) > 0 {
+		r.bad(rule, key, p.pos(cmp.Pos()), fmt.Sprintf("the comparator that orders the requirements of a version never reads %v: two requirements that differ only there (a package named b and an alias b=npm:a@^1) keep whatever order the caller listed them in, and the npm resolver installs a different package under that name accordingly", missing))
+	} else {
+		r.ok(rule, key, p.pos(cmp.Pos()), "reads the name, the type and the requirement string of its operands")
+	}
+}
